@@ -901,7 +901,7 @@ static IMPORT_FUNCTION* pe_parse_import_descriptor(
         continue;
       }
 
-      if (name != NULL || has_ordinal == 1)
+      if (name != NULL)
       {
         IMPORT_FUNCTION* imported_func = (IMPORT_FUNCTION*) yr_calloc(
             1, sizeof(IMPORT_FUNCTION));
@@ -992,7 +992,7 @@ static IMPORT_FUNCTION* pe_parse_import_descriptor(
         continue;
       }
 
-      if (name != NULL || has_ordinal == 1)
+      if (name != NULL)
       {
         IMPORT_FUNCTION* imported_func = (IMPORT_FUNCTION*) yr_calloc(
             1, sizeof(IMPORT_FUNCTION));
@@ -1175,6 +1175,13 @@ static IMPORTED_DLL* pe_parse_imports(PE* pe)
 
       imported_dll = (IMPORTED_DLL*) yr_calloc(1, sizeof(IMPORTED_DLL));
 
+      if (imported_dll != NULL &&
+          (imported_dll->name = yr_strdup(dll_name)) == NULL)
+      {
+        yr_free(imported_dll);
+        imported_dll = NULL;
+      }
+
       if (imported_dll != NULL)
       {
         IMPORT_FUNCTION* functions = pe_parse_import_descriptor(
@@ -1182,7 +1189,6 @@ static IMPORTED_DLL* pe_parse_imports(PE* pe)
 
         if (functions != NULL)
         {
-          imported_dll->name = yr_strdup(dll_name);
           imported_dll->functions = functions;
           imported_dll->next = NULL;
 
@@ -1197,6 +1203,7 @@ static IMPORTED_DLL* pe_parse_imports(PE* pe)
         }
         else
         {
+          yr_free(imported_dll->name);
           yr_free(imported_dll);
         }
       }
@@ -1466,8 +1473,12 @@ static void* pe_parse_delayed_imports(PE* pe)
       IMPORT_FUNCTION* imported_func = (IMPORT_FUNCTION*) yr_malloc(
           sizeof(IMPORT_FUNCTION));
 
-      if (imported_func == NULL)
+      if (imported_func == NULL || func_name == NULL)
+      {
+        yr_free(imported_func);
+        yr_free(func_name);
         break;
+      }
 
       imported_func->name = func_name;
       imported_func->rva = func_rva;
@@ -2782,7 +2793,10 @@ define_function(imphash)
     dll_name = (char*) yr_malloc(dll_name_len + 1);
 
     if (!dll_name)
+    {
+      yr_md5_final(digest, &ctx);
       return ERROR_INSUFFICIENT_MEMORY;
+    }
 
     strlcpy(dll_name, dll->name, dll_name_len + 1);
 
@@ -2799,7 +2813,11 @@ define_function(imphash)
       final_name = (char*) yr_malloc(final_name_len + 1);
 
       if (final_name == NULL)
-        break;
+      {
+        yr_free(dll_name);
+        yr_md5_final(digest, &ctx);
+        return ERROR_INSUFFICIENT_MEMORY;
+      }
 
       sprintf(final_name, first ? "%s.%s" : ",%s.%s", dll_name, func->name);
 
@@ -2837,7 +2855,9 @@ define_function(imphash)
 
   digest_ascii[YR_MD5_LEN * 2] = '\0';
 
-  yr_hash_table_add(pe->hash_table, "imphash", NULL, digest_ascii);
+  FAIL_ON_ERROR_WITH_CLEANUP(
+      yr_hash_table_add(pe->hash_table, "imphash", NULL, digest_ascii),
+      yr_free(digest_ascii));
 
   return_string(digest_ascii);
 }
